@@ -91,6 +91,8 @@ def cases(draw):
 
 
 def run_task(task):
+    from vlib import specgen as _sg
+    _sg.set_tier(task.get("_tier"))
     res = TaskResult()
     try:
         hyp.campaign(cases(), lambda c: check_case(c, res), task["n"], task["seed"], res,
